@@ -1,7 +1,7 @@
 (* C10 - printed digit tables place every digit at its true position: the text is byte-identical to the
    canonical layout determined by the options alone. *)
 From Coq Require Import ZArith List Lia Bool.
-Require Import Pos PosHist Views HistModel PrnModel PrnProof PrintModel PrintProof.
+Require Import Pos PosHist Views HistModel PrnModel PrnProof PrintModel PrintProof DecProof.
 Import ListNotations.
 Open Scope Z_scope.
 
@@ -34,6 +34,15 @@ Theorem C10_shown_true : forall d v s e q x n, wf v ->
   In (q, x) (fwd_list d (eff_hi d (with_end (with_start v s) e)) (eff_lo (with_end (with_start v s) e)) n) ->
   s <= q < e /\ 0 <= q.
 Proof. intros d v s e q x n Hw. exact (window_bounds d v s e q x Hw n). Qed.
+
+(* when counts are shown, the label printed at a row start is the decimal numeral of the position of the row's first
+   column (right aligned, followed by two spaces); the declarative layout places it exactly before the cells q with
+   q mod R = 0 (PrnModel.pre) *)
+Theorem C10_label_is_position : forall o maxd q, 0 < dcw o maxd -> 0 <= q < 10 ^ 80 ->
+  let '(_, nz, con) := starters o maxd in
+  con = true /\ exists sp, nz q = sp ++ dec q ++ [32; 32] /\ Forall (fun c => c = 32) sp /\ codes_value (dec q) = q.
+Proof. exact row_label_denotes_position. Qed.
+Print Assumptions C10_label_is_position.
 
 (* non-vacuity: Sqrt(2)-like digits, rows of 10, columns of 5, positions {0..3} u {23..26} *)
 Example C10_example :
